@@ -53,7 +53,7 @@ META = {
     "level_note": "Trusted: os.scandir/os.lstat/os.readlink and the unpatched open captured at import time for the snapshots.",
 }
 PLAN = {
-    "quick": {"shards": 8, "examples": 2400},
+    "quick": {"shards": 8, "examples": 1600},
     "thorough": {"shards": 16, "examples": 160000, "timeout": 3000},
 }
 
@@ -321,7 +321,8 @@ def evaluate(case: dict) -> Outcome:  # noqa: C901
                 desc = _variant(step) + ("|kw" if step["kw"] else "|pos") + f"|{pc}" + (f"->{qc}" if qc else "")
                 result = "ok"
                 try:
-                    if q is not None and step["op"] in ("shutil.copytree", "shutil.move") and (q + os.sep).startswith(p + os.sep):
+                    if q is not None and step["op"] in ("shutil.copytree", "shutil.move") and \
+                            (os.path.realpath(q) + os.sep).startswith(os.path.realpath(p) + os.sep):
                         raise OSError("skipped by the harness: destination inside source (shutil recurses)")
                     _run_step(step, p, q)
                 except PermissionError as exc:
